@@ -346,9 +346,23 @@ def empty_product_detection(ctx: Ctx, rule: str) -> None:
     ctx.record(rule + "r", "TABLE", f.ref, "no first variant (StopIteration on the peek) -> EmptyCartesianProduct", ok, {}, "" if ok else "an empty Cartesian product no longer raises")
     g = ctx.repo.func("params_parser.py:all_suffixes_by_restriction")
     ctx.touch(g.ref)
-    body = [ast.unparse(s_) for s_ in g.node.body if not (isinstance(s_, ast.Expr) and isinstance(s_.value, ast.Constant))]
-    ok2 = body == ["rep = Reparsable()", "rep.parse_next_file(f'{key}.cfg')", "rep.parse_next_str(restriction)", "parser = rep.get_parser()",
-                   "return [d['shortname'] for d in parser.get_dicts()]"]
+    # structural, not textual: one Reparsable; on it, in order, parse_next_file(f"{key}.cfg"), parse_next_str(restriction), get_parser();
+    # the result is an unfiltered comprehension of d["shortname"] over that parser's get_dicts()
+    seq = [(ast.unparse(c.func), [ast.unparse(a_) for a_ in c.args], [k.arg for k in c.keywords]) for c in sorted(
+        (c for c in ast.walk(g.node) if isinstance(c, ast.Call) and isinstance(c.func, ast.Attribute) and c.func.attr in ("parse_next_file", "parse_next_str", "parse_next_dict", "parse_next_batch_file", "get_parser")),
+        key=lambda c: (c.lineno, c.col_offset))]
+    rets = [r for r in ast.walk(g.node) if isinstance(r, ast.Return)]
+    comp = rets[0].value if len(rets) == 1 else None
+    parser_names = {t.id for a_ in ast.walk(g.node) if isinstance(a_, ast.Assign) and isinstance(a_.value, ast.Call) and ast.unparse(a_.value.func).endswith(".get_parser") for t in a_.targets if isinstance(t, ast.Name)}
+    ok_ret = (isinstance(comp, ast.ListComp) and len(comp.generators) == 1 and not comp.generators[0].ifs
+              and isinstance(comp.generators[0].iter, ast.Call) and isinstance(comp.generators[0].iter.func, ast.Attribute) and comp.generators[0].iter.func.attr == "get_dicts"
+              and ast.unparse(comp.generators[0].iter.func.value) in parser_names
+              and isinstance(comp.elt, ast.Subscript) and ast.unparse(comp.elt.slice) == "'shortname'" and ast.unparse(comp.elt.value) == ast.unparse(comp.generators[0].target))
+    recv = {x[0].rsplit(".", 1)[0] for x in seq}
+    ok_seq = ([x[0].rsplit(".", 1)[1] for x in seq] == ["parse_next_file", "parse_next_str", "get_parser"] and len(recv) == 1
+              and seq[0][1] == ["f'{key}.cfg'"] and seq[1][1] == ["restriction"] and seq[2][1] == [] and seq[2][2] == [])
+    ok2 = bool(ok_ret and ok_seq)
+    body = {"calls": seq, "return": ast.unparse(comp) if comp is not None else None}
     ctx.record(rule + "n", "PROV", g.ref, "nets restriction -> suffixes: <key>.cfg, then the restriction, parser with empty-product detection, every variant's shortname", ok2, {"body": body},
                "" if ok2 else "the resolution of a nets restriction into suffixes changed")
 
